@@ -1089,6 +1089,7 @@ fn verb_name(r: &Req) -> String {
 
 /// Execute one op on the implementation; the oracle clauses are evaluated here.
 pub fn exec(op: &str, out: &mut Out, ctx: &mut Ctx) -> String {
+    let _crumb = crate::common::crumb::guard(op);
     if op == "admit new" {
         return "ok".into();
     }
